@@ -85,8 +85,14 @@ func newRun36(c cfg36) (*run36, error) {
 	}
 	r.env = env
 	env.OnConnecting = func(_ context.Context, _ centrifuge.ConnectEvent) (centrifuge.ConnectReply, error) {
-		if r.getMode() == "err" {
+		switch r.getMode() {
+		case "err":
 			return centrifuge.ConnectReply{}, centrifuge.ErrorUnauthorized
+		case "sserr":
+			// accepted, but the connect-time server-side subscription is already expired: error reply after
+			// the connection authenticated and was registered
+			return centrifuge.ConnectReply{Credentials: &centrifuge.Credentials{UserID: "u"},
+				Subscriptions: map[string]centrifuge.SubscribeOptions{"ss36": {ExpireAt: time.Now().Unix() - 10}}}, nil
 		}
 		cred := &centrifuge.Credentials{UserID: "u"}
 		if c.E > 0 {
@@ -248,6 +254,10 @@ func (r *run36) run(bi int, beh []map[string]any, res *vh.Result) bool {
 	// the reference, kept by the harness from its own actions in real unix seconds
 	dl, sdl := inf36, inf36
 	lastRefresh := "none"
+	var fired *vtimer      // dequeued by TimerFire, run by TimerRun
+	var diffs []string     // internal differences (timer state) remembered until an observable consequence shows
+	failedConnect := false // a connect command was answered with an error reply
+	racedRefresh := false  // a refresh was applied between the dequeuing of a timer and the run of its callback
 	owed, connected, subLive := false, false, false
 	nontrivial := false
 	closedCode := func() (bool, int) {
@@ -274,7 +284,7 @@ func (r *run36) run(bi int, beh []map[string]any, res *vh.Result) bool {
 			// A real scheduler fires a timer when its duration has elapsed. Where the only real-time deadline is the
 			// connection's expiry (no pings), a timer the code armed for an EARLIER instant than the model's deadline is
 			// fired now, like any scheduler would: closing before the deadline then shows as such.
-			if a := r.sch.active("c"); !c.Ping && len(a) == 1 && a[0].d < time.Hour && time.Until(a[0].at.Add(a[0].d)) < 400*time.Millisecond {
+			if a := r.sch.active("c"); fired == nil && !c.Ping && len(a) == 1 && a[0].d < time.Hour && time.Until(a[0].at.Add(a[0].d)) < 400*time.Millisecond {
 				mt := vh.Map(st["tmr"])
 				if !(vh.Str(mt["op"]) == "expire" && vh.Int(mt["at"]) <= vh.Int(st["now"])) && timingOK() {
 					nowU := time.Now().Unix()
@@ -291,6 +301,9 @@ func (r *run36) run(bi int, beh []map[string]any, res *vh.Result) bool {
 		case "Connect":
 			r.setMode(mode)
 			conn.Do(&protocol.Command{Id: conn.NextID(), Connect: &protocol.ConnectRequest{}})
+			if mode != "ok" {
+				failedConnect = true
+			}
 			if mode == "ok" {
 				connected = true
 				if c.E > 0 {
@@ -312,6 +325,7 @@ func (r *run36) run(bi int, beh []map[string]any, res *vh.Result) bool {
 				owed = false
 			}
 		case "ClientRefresh":
+			racedRefresh = racedRefresh || (fired != nil && mode == "extend")
 			r.setMode(mode)
 			conn.Do(&protocol.Command{Id: conn.NextID(), Refresh: &protocol.RefreshRequest{Token: "t"}})
 			if c.CSR {
@@ -325,6 +339,7 @@ func (r *run36) run(bi int, beh []map[string]any, res *vh.Result) bool {
 			}
 			nontrivial = true
 		case "ServerRefresh":
+			racedRefresh = racedRefresh || (fired != nil && mode == "extend")
 			switch mode {
 			case "extend":
 				_ = conn.Client.Refresh(centrifuge.WithRefreshExpireAt(nowUnix + 2))
@@ -348,45 +363,42 @@ func (r *run36) run(bi int, beh []map[string]any, res *vh.Result) bool {
 			}
 			nontrivial = true
 		case "TimerFire":
-			r.setMode(mode)
-			seq := r.sch.lastSeq()
-			if _, n, ok := r.sch.fire("c"); !ok {
-				op := sget(step, "op")
-				switch {
-				case n == 0 && op == "expire" && mode == "-" && dl != inf36 && nowUnix >= dl:
-					violate("expire:not-closed:no-timer", fmt.Sprintf("the connection is %d s past its deadline (last refresh: %s) and no timer is armed that would close it", nowUnix-dl, lastRefresh))
-				case n == 0 && op == "pong" && owed:
-					violate("no-pong:not-closed:no-timer", "a ping is unanswered and no timer is armed that would check the pong")
-				default:
-					drift(fmt.Sprintf("expected exactly one armed timer (%s), found %d", op, n))
-				}
+			// the scheduler dequeues the armed timer; its callback runs at the TimerRun step
+			fired = nil
+			switch a := r.sch.active("c"); len(a) {
+			case 1:
+				fired = r.sch.take("c")
+			case 0:
+				// an internal difference (the model has a timer armed, the code has none): remembered; what the
+				// connection observably does when the model's deadline passes decides
+				diffs = append(diffs, fmt.Sprintf("the model has the %s timer armed, the connection has no timer at all", sget(step, "op")))
+			default:
+				drift(fmt.Sprintf("expected exactly one armed timer (%s), found %d", sget(step, "op"), len(a)))
 				continue
 			}
-			fireTimed, fireOK = true, timingOK()
-			if sget(step, "op") == "presence" {
-				// a tick that finds the previous tick's goroutine still finishing is skipped by the code (it only
-				// re-arms): fire again, like the next period would
-				for try := 0; try < 5; try++ {
-					deadline := time.Now().Add(150 * time.Millisecond)
-					for len(r.cbLog()) < len(mcb) && time.Now().Before(deadline) {
-						time.Sleep(200 * time.Microsecond)
-					}
-					if len(r.cbLog()) >= len(mcb) || !r.sch.waitArmed("c", seq, 0) {
-						break
-					}
-					if cl, _ := t.Closed(); cl {
-						break
-					}
-					seq = r.sch.lastSeq()
-					if _, _, ok := r.sch.fire("c"); !ok {
-						break
-					}
-				}
+			continue
+		case "TimerRun":
+			r.setMode(mode)
+			ticks0 := ticksDone(conn.Client.ID())
+			fireRan := fired != nil
+			if fired != nil {
+				fired.cb()
 			}
-			if vh.Str(vh.Map(st["tmr"])["op"]) != "none" && len(vh.List(st["closing"])) == 0 {
+			fired = nil
+			fireTimed, fireOK = true, timingOK()
+			if sget(step, "op") == "presence" && fireRan {
+				// the tick runs on its own goroutine: wait for its callbacks and for its end (a tick fired while the
+				// previous one is still finishing would be skipped by the code)
+				deadline := time.Now().Add(syncWait)
+				for len(r.cbLog()) < len(mcb) && time.Now().Before(deadline) {
+					time.Sleep(200 * time.Microsecond)
+				}
+				waitTickDone(conn.Client.ID(), ticks0, syncWait)
+			}
+			if vh.Str(vh.Map(st["tmr"])["op"]) != "none" && len(vh.List(st["closing"])) == 0 && vh.Str(st["status"]) != "closed" {
 				armed := false
 				for deadline := time.Now().Add(syncWait); time.Now().Before(deadline); time.Sleep(200 * time.Microsecond) {
-					if armed = r.sch.waitArmed("c", seq, 0); armed {
+					if armed = len(r.sch.active("c")) > 0; armed {
 						break
 					}
 					if cl, _ := t.Closed(); cl {
@@ -394,8 +406,8 @@ func (r *run36) run(bi int, beh []map[string]any, res *vh.Result) bool {
 					}
 				}
 				if !armed {
-					// judged by the monitors first: the connection may have been closed instead
-					pendingDrift = fmt.Sprintf("no timer armed after firing %s", sget(step, "op"))
+					// remembered; judged by what the connection observably does (now or at a later deadline)
+					diffs = append(diffs, fmt.Sprintf("no timer armed after the %s callback ran (the model has %s armed)", sget(step, "op"), vh.Str(vh.Map(st["tmr"])["op"])))
 				}
 			}
 			nontrivial = true
@@ -418,6 +430,10 @@ func (r *run36) run(bi int, beh []map[string]any, res *vh.Result) bool {
 		}
 		if cl, _ := t.Closed(); !cl && vh.Str(st["status"]) == "connected" {
 			conn.Barrier(syncWait)
+			// a push written by a goroutine the step spawned (expired unsubscribe) may still be on its way
+			for deadline := time.Now().Add(syncWait); len(r.frames()) < len(mo) && time.Now().Before(deadline); time.Sleep(200 * time.Microsecond) {
+			}
+			conn.Barrier(syncWait)
 		} else if !cl {
 			t.WaitFor(syncWait, func(rs []*protocol.Reply, closed bool) bool { return len(rs) >= len(mo) || closed })
 		}
@@ -431,12 +447,12 @@ func (r *run36) run(bi int, beh []map[string]any, res *vh.Result) bool {
 			}
 		}
 		// ---- monitors: the action properties of ConnTimers.tla on the real connection
-		explicitExpired := mode == "expired" && (act == "ClientRefresh" || act == "ServerRefresh" || (act == "TimerFire" && sget(step, "op") == "expire"))
-		if closedNow && code == codeExpired && !explicitExpired && !(dlBefore != inf36 && nowUnix >= dlBefore) && !(act == "TimerFire" && sget(step, "op") == "expire") {
+		explicitExpired := mode == "expired" && (act == "ClientRefresh" || act == "ServerRefresh" || (act == "TimerRun" && sget(step, "op") == "expire"))
+		if closedNow && code == codeExpired && !explicitExpired && !(dlBefore != inf36 && nowUnix >= dlBefore) && !(act == "TimerRun" && sget(step, "op") == "expire") {
 			violate("expire:closed-although-refreshed:"+lastRefresh, fmt.Sprintf("%s closed the connection as expired although its deadline (last refresh: %s) is %s", act, lastRefresh, rel(dlBefore, nowUnix)))
 			break
 		}
-		if act == "TimerFire" {
+		if act == "TimerRun" && !wasClosed {
 			switch sget(step, "op") {
 			case "pong":
 				if owed && !(closedNow && code == codeNoPong) {
@@ -447,7 +463,11 @@ func (r *run36) run(bi int, beh []map[string]any, res *vh.Result) bool {
 				}
 			case "stale":
 				if !connected && !(closedNow && code == codeStale) {
-					violate("stale:not-closed", fmt.Sprintf("the stale timer fired on a connection that never authenticated and it was not closed as stale (closed=%v code=%d)", nowClosed, code))
+					sig, what := "stale:not-closed", "that never authenticated"
+					if failedConnect {
+						sig, what = "stale:not-closed:after-failed-connect", "whose connect command was answered with an error reply"
+					}
+					violate(sig, fmt.Sprintf("the stale close delay passed on a connection %s and it was not closed as stale (closed=%v code=%d, timers armed: %d)", what, nowClosed, code, len(r.sch.active("c"))))
 				}
 				if connected && closedNow {
 					violate("stale:closed-authenticated", fmt.Sprintf("the stale timer closed an authenticated connection with %d", code))
@@ -457,7 +477,11 @@ func (r *run36) run(bi int, beh []map[string]any, res *vh.Result) bool {
 				case "-":
 					past := dl != inf36 && nowUnix >= dl
 					if past && !(closedNow && code == codeExpired) {
-						violate("expire:not-closed", fmt.Sprintf("the expire timer fired %d s past the connection's deadline and the connection was not closed as expired (closed=%v code=%d)", nowUnix-dl, nowClosed, code))
+						sig := "expire:not-closed"
+						if racedRefresh {
+							sig += ":refresh-between-fire-and-run"
+						}
+						violate(sig, fmt.Sprintf("the expire timer fired %d s past the connection's deadline and the connection was not closed as expired (closed=%v code=%d)", nowUnix-dl, nowClosed, code))
 					}
 					if !past && closedNow {
 						violate("expire:closed-although-refreshed:"+lastRefresh, fmt.Sprintf("the expire timer closed the connection with %d although its deadline (last refresh: %s) is %s", code, lastRefresh, rel(dl, nowUnix)))
@@ -545,6 +569,10 @@ func (r *run36) run(bi int, beh []map[string]any, res *vh.Result) bool {
 	}
 	if cl, _ := t.Closed(); !cl {
 		_ = conn.CloseF()
+	}
+	if completed == 1 && len(diffs) > 0 {
+		// nothing observable followed from it within the behaviour: the model does not explain the code
+		drift(diffs[0])
 	}
 	if completed == 1 && nontrivial {
 		res.Distinct(vh.J(c) + vh.J(steps))
